@@ -20,9 +20,9 @@ SHARED = {
     "C13": [("C13.R8", "c14", "r2", "one key function on every path"), ("C13.R9", "c14", "r4_positions", "key function chosen for the parameter's real position"), ("C13.R10", "c15", "r2_normaliser_front", "string annotations are evaluated first and then normalised")],
     "C14": [("C14.R10", "more", "build_state_read_after_ensuring_the_build", "build state is read after the build was ensured"), ("C14.R9", "c15", "r2_normaliser_front", "string annotations are evaluated first and then normalised")],
     "C15": [("C15.R9", "more", "literal_bound_covers_every_value", "a Literal's bound covers the types of all its values (interpreted)"), ("C15.R7", "more", "annotations_pass_the_normaliser", "every annotation read passes the normaliser"), ("C15.R8", "c12", "r4_tables", "decision tables of the Order-valued code (union order is member-order free)")],
-    "C18": [("C18.R7", "more", "removal_is_exhaustive", "unregistering removes every signature of the function")],
+    "C18": [("C18.R8", "more", "rebuild_is_the_mutators_last_effect", "a mutator has made all its changes before it starts the rebuild"), ("C18.R7", "more", "removal_is_exhaustive", "unregistering removes every signature of the function")],
     "C17": [("C17.R8", "more", "entry_point_replaced_only_on_unnamed_or_fresh", "the entry point is replaced only on unnamed or fresh function objects")],
-    "C19": [("C19.R9", "c07", "r3", "the continuation branch resolves the bare key first and consults what it stored")],
+    "C19": [("C19.R10", "more", "no_shared_mutable_defaults_written", "mutable default arguments are never written"), ("C19.R11", "c19", "r11_resolution_completes_whatever_is_cached", "a resolution installs its whole chain whatever is already cached"), ("C19.R9", "c07", "r3", "the continuation branch resolves the bare key first and consults what it stored")],
     "C05": [("C05.R5", "c18", "r4_flag_never_unset", "the built flag is not lowered while the generated entry point stays live")],
     "C20": [("C20.R9", "c20", "r9_dependent_dispatcher_tests_values_only", "the dependent dispatcher does not re-test plain classes"), ("C20.R7", "c07", "r3", "the continuation branch reads the cached bare key"), ("C20.R8", "c07", "r5_next_keys_like_call_next", "next() keys like the entry point")],
 }
